@@ -517,8 +517,12 @@ func (t tspec) coq() string {
 	case "b64":
 		return fmt.Sprintf("(TB64 %d)", t.Shift)
 	case "dns":
-		d := make([]string, len(t.Domains))
-		for i, s := range t.Domains {
+		ds := t.Domains
+		if len(ds) == 0 {
+			ds = transform.DefaultDomains() // what DNSTransform.pick substitutes for an empty list
+		}
+		d := make([]string, len(ds))
+		for i, s := range ds {
 			d[i] = vh.Str(s)
 		}
 		return fmt.Sprintf("(TDns %s %s)", vh.B(transform.VerifC07DNSServer), vh.List(d))
